@@ -24,6 +24,8 @@
 #                                                      [t] all 3^4 with R=1, all schedules; the 9-row array with R=2, bound 3
 #     E  n=5 [t only]: all 32 P/S patterns x strength-2 orthogonal array (27 rows) over {ok,fail,hang}; R=1 bound 2, R=2 bound 1
 #     F  n=2, --repeat 2, outcome depends on the iteration (flaky tests), J={2,3}      [q] bound 2  [t] bound 3
+#     R  n=1, protocol rust: {P,S} x should_fail x 6 outcomes x output {`test a::b ... ok`, `... FAILED`, `... ignored`}
+#             (72 tests) x J x M                                                       [q] R=1 bound 2  [t] R={1,2} all schedules
 #   with J = --num-processes {1,2,3}, R = --repeat {1,2}, M = --maxfail {0,1}.
 #   EVERY configuration that is explored has ALL its schedules within the stated deviation bound explored.
 #
@@ -40,6 +42,11 @@
 #               signalled is a violation; every process must have ended when the harness returns
 #     totals    printed totals == tally of the testlog.json results; one json record per started run
 #     exit      return value != 0  <=>  some FAIL / ERROR / TIMEOUT / UNEXPECTEDPASS
+#   Selection by name, separately exhaustive on a build directory in which test names are NOT unique (same name in two subdirs
+#   of one project, and in both projects) through the real TestHarness.get_tests(): every sequence of <= 2 (thorough: 3)
+#   arguments over the 48 documented spellings {name, :name, proj:name, proj:} x wildcards in either part: each test named by
+#   some argument is selected exactly once, no other test (an argument naming no test at all: unspecified).  The single
+#   arguments and the ordered pairs of 4 spellings also run through the real CLI with real test programs that log their start.
 #   Selection logic, separately exhaustive on a 2-project x 2-suite build directory through the real
 #   TestHarness.get_tests(): every --slice i/n for n <= |subset| over every non-empty subset of 8 tests, 3 of them non-parallel (disjoint, covering), every
 #   pair (include set, exclude set) of subsets of the 6 documented suite spellings, priority order.
@@ -56,7 +63,7 @@
 #     `Fail:` total may or may not include it)                                          -> interrupted_runs
 #   * whether a TIMEOUT / UNEXPECTEDPASS counts towards --maxfail and stops --repeat: the run MAY be cut short as soon
 #     as there is a bad result, it is never required to be
-#   * tap protocol with a non-zero exit status: ERROR or FAIL (EXPECTEDFAIL under should_fail), also SKIP for 77;
+#   * tap / rust protocol with a non-zero exit status: ERROR or FAIL (EXPECTEDFAIL under should_fail), also SKIP for 77;
 #     tap + should_fail + `not ok` + exit 0: EXPECTEDFAIL or UNEXPECTEDPASS               -> loose_cells
 #   * `--suite name` without project for tests of a SUBproject ("can be omitted if it is the top-level project")
 #                                                                                        -> skipped_unspecified
@@ -70,7 +77,10 @@ from mesonbuild import mtest
 TIMEOUTS = [30, 20, 40, 10, 25]
 OUTS = ['ok', 'fail', 'skip', 'err', 'sig', 'hang']
 RC = {'ok': 0, 'fail': 1, 'skip': 77, 'err': 99, 'sig': -int(signal.SIGSEGV), 'hang': 0}
-STREAMS = {'ok': b'1..1\nok 1\n', 'notok': b'1..1\nnot ok 1\n', 'skip': b'1..0 # SKIP\n'}
+STREAMS = {'ok': b'1..1\nok 1\n', 'notok': b'1..1\nnot ok 1\n', 'skip': b'1..0 # SKIP\n',
+           # protocol rust (output of a native Rust test executable: one line per test function)
+           'rok': b'\nrunning 1 test\ntest a::b ... ok\n', 'rfail': b'\nrunning 1 test\ntest a::b ... FAILED\n', 'rign': b'\nrunning 1 test\ntest a::b ... ignored\n'}
+STREAM_VERDICT = {'ok': 'OK', 'notok': 'FAIL', 'skip': 'SKIP', 'rok': 'OK', 'rfail': 'FAIL', 'rign': 'SKIP'}
 DEFAULT_STREAM = {'ok': 'ok', 'fail': 'notok', 'skip': 'skip', 'err': 'ok', 'sig': 'notok', 'hang': 'ok'}
 BAD = ('FAIL', 'ERROR', 'TIMEOUT', 'UNEXPECTEDPASS')
 HORIZON = 60
@@ -120,8 +130,8 @@ timeouts = %r
 foreach b : %r
   foreach par : [true, false]
     foreach sf : [false, true]
-      foreach proto : ['exitcode', 'tap']
-        name = 'b@0@@1@@2@@3@'.format(b, par ? 'P' : 'S', sf ? 'x' : 'n', proto == 'tap' ? 't' : 'e')
+      foreach proto : ['exitcode', 'tap', 'rust']
+        name = 'b@0@@1@@2@@3@'.format(b, par ? 'P' : 'S', sf ? 'x' : 'n', {'exitcode': 'e', 'tap': 't', 'rust': 'r'}[proto])
         test(name, prog, args: [name], is_parallel: par, should_fail: sf, protocol: proto, timeout: timeouts[b])
       endforeach
     endforeach
@@ -156,6 +166,42 @@ def sel_project():
     return files
 
 
+# Selection by NAME (`meson test A D`, `(sub)project_name:`, `(sub)project_name:test_name`, wildcards in project and test
+# names).  Test names are not unique in Meson: the same test('dup', ...) appears in two subdirs of the main project, in two
+# subdirs of the subproject, and a name may be shared between projects.  Every test has its own id (its only argument).
+NM_TESTS = [    # (id, project, subdir, name, exit status in the real-process runs), in declaration order
+    ('a_dup', 'mp', 'a', 'dup', 0), ('m_uniq', 'mp', '', 'uniq', 0), ('b_dup', 'mp', 'b', 'dup', 1), ('m_both', 'mp', '', 'both', 0),
+    ('s_dup', 'sub', '', 'dup', 0), ('s_both', 'sub', '', 'both', 0), ('c_dup', 'sub', 'c', 'dup', 0), ('s_sonly', 'sub', '', 'sonly', 0),
+]
+NM_NAMEPATS = ['dup', 'uniq', 'both', 'sonly', 'd*', '?o*']
+NM_PROJPATS = [None, '', 'mp', 'sub', 's*', 'm?', '*']       # None: unqualified `name`; '': `:name`
+
+
+def name_args():
+    """The alphabet of documented spellings of a test-name argument."""
+    args = [n if p is None else p + ':' + n for p in NM_PROJPATS for n in NM_NAMEPATS]
+    return args + [p + ':' for p in NM_PROJPATS[1:]]
+
+
+def names_project():
+    files = {'t.py': T_PY % sys.executable, 'subprojects/sub/t.py': T_PY % sys.executable}
+    for proj, rel in (('mp', ''), ('sub', 'subprojects/sub/')):
+        mb = "project('%s')\nprog = find_program('t.py')\n" % proj
+        for tid, p, sd, name, _ in NM_TESTS:
+            if p != proj:
+                continue
+            decl = "test('%s', prog, args: ['%s'])\n" % (name, tid)
+            if sd:
+                files['%s%s/meson.build' % (rel, sd)] = decl
+                mb += "subdir('%s')\n" % sd
+            else:
+                mb += decl
+        if proj == 'mp':
+            mb += "subproject('sub')\n"
+        files[rel + 'meson.build'] = mb
+    return files
+
+
 def setup_project(root, files):
     src, bld = os.path.join(root, 'src'), os.path.join(root, 'bld')
     mesonproc.write_tree(src, files)
@@ -175,7 +221,7 @@ def tname(i, t):
 
 
 def mk(par, sf, proto, out, stream=None, out2=None):
-    return [par, sf, proto, out, stream if proto == 't' else None, out2]
+    return [par, sf, proto, out, stream if proto in ('t', 'r') else None, out2]
 
 
 SP = [('n', 'e'), ('x', 'e'), ('n', 't'), ('x', 't')]
@@ -210,6 +256,7 @@ def families(thorough):
             for out in OUTS:
                 for st in ('ok', 'notok', 'skip'):
                     A.append([mk(par, sf, 't', out, st)])
+    RU = [[mk(par, sf, 'r', out, st)] for par in 'PS' for sf in 'nx' for out in OUTS for st in ('rok', 'rfail', 'rign')]
     PO = [(p, o) for p in 'PS' for o in OUTS]
     B = []
     for idx, (x, y) in enumerate(itertools.product(PO, PO)):
@@ -247,6 +294,7 @@ def families(thorough):
         fam.append(('C', block(3, r3_3), (1, 2), {1: 2, 2: 2}))
         fam.append(('D', block(4, oa9_rows), (1, 2), {1: 2, 2: 2}))
         fam.append(('F', flaky([('ok', 'ok')]), (2,), {2: 2}))
+        fam.append(('R', RU, (1,), {1: 2}))
     else:
         fam.append(('A', A, (1, 2), {1: None, 2: None}))
         fam.append(('B', B, (1, 2), {1: None, 2: None}))
@@ -256,6 +304,7 @@ def families(thorough):
         fam.append(('D', block(4, oa9_rows), (2,), {2: 3}))
         fam.append(('E', block(5, [[R3[v] for v in r] for r in oa27()]), (1, 2), {1: 2, 2: 1}))
         fam.append(('F', flaky(list(itertools.product(R3, repeat=2))), (2,), {2: 3}))
+        fam.append(('R', RU, (1, 2), {1: None, 2: None}))
     # M: many bad results in one run (the exit status is one byte: a count of failures must not wrap to 0); default schedule only
     many = (255, 256, 257) if not thorough else (255, 256, 257, 511, 512)
     fam.append(('M', [[mk('P', 'n', 'e', 'fail')], [mk('P', 'n', 'e', 'fail'), mk('S', 'n', 'e', 'ok')], [mk('P', 'x', 'e', 'ok')]], many, {r: 0 for r in many}))
@@ -301,7 +350,7 @@ def allowed_results(sf, proto, rcode, stream):
     if proto == 'e':
         base = 'OK' if rcode == 0 else 'SKIP' if rcode == 77 else 'ERROR' if rcode == 99 else 'FAIL'
         return {inv(base)}, False
-    verdict = {'ok': 'OK', 'notok': 'FAIL', 'skip': 'SKIP'}[stream]
+    verdict = STREAM_VERDICT[stream]
     if rcode == 0:
         if sf == 'x' and verdict == 'FAIL':
             return {'EXPECTEDFAIL', 'UNEXPECTEDPASS'}, True
@@ -467,9 +516,18 @@ def judge(cfg, log, rc, out, jrecs, err):
             what = 'exit status %s' % r['rc']
         if loose:
             S['loose_cells'] += 1
+        if t[2] == 'r' and not r['sigs'] and r['rc'] != 0:
+            S['rust_runs_nonzero_status'] += 1
         if obs is not None:
             classes.add((t[2], t[1], outcome if not r['sigs'] else 'signalled', obs))
-            if exp is not None and obs not in exp:
+            if exp is not None and obs not in exp and t[2] == 'r' and r['rc'] != 0 and not r['sigs'] and \
+                    obs == {'x': {'OK': 'UNEXPECTEDPASS', 'FAIL': 'EXPECTEDFAIL'}}.get(t[1], {}).get(STREAM_VERDICT[t[4]], STREAM_VERDICT[t[4]]):
+                # classifier of one specific defect: protocol rust takes the result from the output alone, whatever the exit status
+                S['rust_nonzero_status'] += 1
+                V.append(('C12:class:rust:exit-status-ignored',
+                          '%s (%s, protocol rust, should_fail %s, output %r): expected %s, testlog.json says %s - the non-zero status is ignored'
+                          % (key, what, t[1], STREAMS[t[4]].decode().strip().splitlines()[-1], sorted(exp), obs)))
+            elif exp is not None and obs not in exp:
                 V.append(('C12:class:%s%s:%s:%s-as-%s' % (t[2], t[1], 'sig@limit' if exp == {'TIMEOUT'} else 'rc%s' % r['rc'],
                                                            '|'.join(sorted(exp)), obs),
                           '%s (%s, protocol %s, should_fail %s, stream %s): expected %s, testlog.json says %s'
@@ -546,7 +604,7 @@ def behaviour_of(cfg):
         it = env.get('MESON_TEST_ITERATION', '?')
         t = meta[name][0]
         outcome = t[5] if (it == '2' and t[5]) else t[3]
-        out = STREAMS[t[4]] if t[2] == 't' else b'output of %s\n' % name.encode()
+        out = STREAMS[t[4]] if t[2] in ('t', 'r') else b'output of %s\n' % name.encode()
         return '%s#%s' % (name, it), vloop.Behaviour(RC[outcome], out, b'', outcome == 'hang')
     return behaviour
 
@@ -596,6 +654,7 @@ def observation(cfg, wd, prefix, sig=()):
 
 MAIN_BLD = None
 SEL_BLD = None
+NM_BLD = None
 MAIN_PID = os.getpid()
 
 
@@ -619,7 +678,7 @@ def explore_config(item):
                                                                    'jobs_saturated', 'cut_maxfail', 'cut_repeat')}
         agg['stats'].update(flags)
         agg['stats']['exec_with_timeout'] += 1 if S['timeouts'] else 0
-        for k in ('timeouts', 'loose_cells', 'interrupted_runs', 'runs'):
+        for k in ('timeouts', 'loose_cells', 'interrupted_runs', 'runs', 'rust_nonzero_status', 'rust_runs_nonzero_status'):
             agg['stats'][k] += S[k]
         if sum(1 for c in r.choices if c):
             agg['stats']['exec_with_deviation'] += 1
@@ -777,6 +836,138 @@ def slice_cases(wd, maxtests):
     return ncases, viol, sample, allt
 
 
+def glob_match(pat, s):
+    """The documented "wildcards" as far as the alphabet uses them: `*` any run of characters, `?` any one character."""
+    return re.fullmatch(''.join('.*' if c == '*' else '.' if c == '?' else re.escape(c) for c in pat), s) is not None
+
+
+def ref_name_match(proj, name, arg):
+    """Unit-tests.md: `A` = tests named A (any project); `proj:` = all tests of proj; `proj:name` = test name of proj."""
+    if ':' in arg:
+        p, n = arg.split(':', 1)
+        return (p == '' or glob_match(p, proj)) and (n == '' or glob_match(n, name))
+    return glob_match(arg, name)
+
+
+def ref_names_selected(args):
+    """-> (ids of the tests selected by the name arguments, arguments that match no test at all)."""
+    sel = [t[0] for t in NM_TESTS if any(ref_name_match(t[1], t[3], a) for a in args)]
+    dead = [a for a in args if not any(ref_name_match(t[1], t[3], a) for t in NM_TESTS)]
+    return sel, dead
+
+
+def name_chunk(chunk):
+    """chunk = list of argument tuples.  Real TestHarness.get_tests() for each; every test some argument names must be
+    selected exactly once, no other test.  An argument that names no test at all: whether that is an error is not
+    documented -> if the real code refuses the command line the case is counted as unspecified."""
+    from mesonbuild.mesonlib import MesonException
+    wd = worker_wd(NM_BLD)
+    res = {'cases': 0, 'cells': 0, 'unspec': 0, 'viol': [], 'dup_named': 0, 'multi': 0, 'redundant': 0, 'distinct': set()}
+    th = None
+    buf = io.StringIO()
+    old = sys.stdout, sys.stderr
+    sys.stdout = sys.stderr = buf
+    try:
+        for args in chunk:
+            args = list(args)
+            opts = parser().parse_args(['-C', wd, '--no-rebuild'] + args)
+            if th is None:
+                th = mtest.TestHarness(opts)
+            th.options = opts
+            opts.setup = None
+            exp, dead = ref_names_selected(args)
+            rep = {'select': 'name', 'args': args}
+            res['cases'] += 1
+            try:
+                got = [t.cmd_args[-1] for t in th.get_tests()]
+            except MesonException as e:
+                if dead:
+                    res['unspec'] += 1
+                else:
+                    res['viol'].append(('C12:select:name:refused', 'meson test %s: every argument names a test, but: %s' % (' '.join(args), e), rep))
+                continue
+            res['distinct'].add(tuple(got))
+            names = collections.Counter(t[3] + '@' + t[1] for t in NM_TESTS if t[0] in exp)
+            if any(v > 1 for v in names.values()):
+                res['dup_named'] += 1       # two selected tests share project and name
+            if sum(1 for t in NM_TESTS if sum(1 for a in args if ref_name_match(t[1], t[3], a)) > 1):
+                res['multi'] += 1           # some test is named by more than one argument
+            if any(all(any(ref_name_match(t[1], t[3], b) for b in args[:i]) for t in NM_TESTS if ref_name_match(t[1], t[3], a))
+                   for i, a in enumerate(args) if a not in dead):
+                res['redundant'] += 1       # an argument names only tests that earlier arguments name already
+            cnt = collections.Counter(got)
+            for tid, proj, sd, name, _ in NM_TESTS:
+                res['cells'] += 1
+                want = 1 if tid in exp else 0
+                if cnt[tid] != want:
+                    kind = 'missing' if cnt[tid] < want else 'twice' if want else 'extra'
+                    res['viol'].append(('C12:select:name:%s' % kind,
+                                        'meson test %s: test %s (%s:%s%s) selected %d time(s), expected %d; selection %r, expected %r'
+                                        % (' '.join(args), tid, proj, name, ' in subdir ' + sd if sd else '', cnt[tid], want, got, exp), rep))
+                    break
+    finally:
+        sys.stdout, sys.stderr = old
+        if th is not None:
+            th.close_logfiles()
+    res['distinct'] = sorted(res['distinct'])
+    return res
+
+
+def name_real(item):
+    """`meson test <name arguments>` through the real CLI with real test programs: every selected test must report exactly
+    one start, no other test any; one testlog.json record per selected test; exit status non-zero iff a selected test fails."""
+    idx, args = item
+    wd = os.path.join(os.path.dirname(NM_BLD), 'nr-%d' % idx)
+    shutil.rmtree(wd, ignore_errors=True)
+    shutil.copytree(NM_BLD, wd)
+    with open(os.path.join(wd, 'plan.json'), 'w') as f:
+        json.dump({t[0]: {'sleep': 0.01, 'rc': t[4], 'hang': False, 'out': 'output\n'} for t in NM_TESTS}, f)
+    logp = os.path.join(wd, 'events.log')
+    env = mesonproc.base_env(C12_PLAN=os.path.join(wd, 'plan.json'), C12_LOG=logp)
+    r = mesonproc.run_meson(['test', '-C', wd, '--num-processes', '2'] + list(args), wd, env=env, timeout=120)
+    starts = collections.Counter()
+    try:
+        for l in open(logp):
+            p = l.split()
+            if p[0] == 'start':
+                starts[p[1].split('#')[0]] += 1
+    except OSError:
+        pass
+    try:
+        jrecs = [json.loads(l) for l in open(os.path.join(wd, 'meson-logs', 'testlog.json')) if l.strip()]
+    except OSError:
+        jrecs = []
+    shutil.rmtree(wd, ignore_errors=True)
+    if r.signaled:
+        return {'viol': [], 'aborted': 1}
+    exp, dead = ref_names_selected(args)
+    rep = {'name_real': list(args)}
+    V = []
+    cmd = 'meson test ' + ' '.join(args)
+    for t in NM_TESTS:
+        want = 1 if t[0] in exp else 0
+        if starts[t[0]] != want:
+            V.append(('C12:p2:name:%s' % ('never' if starts[t[0]] < want else 'twice' if want else 'unselected'),
+                      '%s: test %s (%s:%s) reported %d start(s), expected %d (selected: %r, started: %r)'
+                      % (cmd, t[0], t[1], t[3], starts[t[0]], want, exp, dict(starts)), rep))
+            break
+    if len(jrecs) != len(exp):
+        V.append(('C12:p2:name:records', '%s: %d testlog.json records for %d selected tests %r' % (cmd, len(jrecs), len(exp), exp), rep))
+    fails = any(t[4] for t in NM_TESTS if t[0] in exp)
+    if fails != (r.rc != 0):
+        V.append(('C12:p2:name:exit', '%s: exit status %r, a selected test fails: %s (selected %r)' % (cmd, r.rc, fails, exp), rep))
+    return {'viol': V, 'aborted': 0, 'selected': len(exp), 'fails': int(fails),
+            'sample': {'argv': list(args), 'started': dict(starts), 'exit': r.rc}}
+
+
+def name_real_cases(thorough):
+    """Single arguments (quick: those whose name part is `dup`, `d*` or empty) and all ordered pairs of four spellings."""
+    singles = [a for a in name_args() if thorough or a.split(':')[-1] in ('dup', 'd*', '')]
+    four = ['mp:dup', 'sub:dup', 'mp:uniq', 'dup']
+    cases = [(a,) for a in singles] + [(a, b) for a in four for b in four if a != b]
+    return [c for c in cases if not ref_names_selected(c)[1]]
+
+
 # =============================================================================================================
 # Part 2: real processes through the real CLI
 P2_OUT = {'ok': (0, False), 'fail': (1, False), 'skip': (77, False), 'err': (99, False), 'sig': (-int(signal.SIGUSR1), False), 'hang': (0, True)}
@@ -818,7 +1009,7 @@ def run_real(case):
     for i, (n, t) in enumerate(zip(names, case['tests'])):
         for it, outcome in ((1, t[3]), (2, t[5] or t[3])):
             rc, hang = P2_OUT[outcome]
-            out = STREAMS[t[4]].decode() if t[2] == 't' else 'output\n'
+            out = STREAMS[t[4]].decode() if t[2] in ('t', 'r') else 'output\n'
             plan['%s#%d' % (n, it)] = {'sleep': case['sleeps'][i], 'rc': rc, 'hang': hang, 'out': out}
     with open(os.path.join(wd, 'plan.json'), 'w') as f:
         json.dump(plan, f)
@@ -948,13 +1139,14 @@ def list_cli(args):
 
 # =============================================================================================================
 def main():
-    global MAIN_BLD, SEL_BLD
+    global MAIN_BLD, SEL_BLD, NM_BLD
     ck = Check('C12', 'model_checking')
     thorough = ck.thorough
     mesonproc.preimport()
     root = scratch_root()
     MAIN_BLD = setup_project(os.path.join(root, 'main'), main_project(5))
     SEL_BLD = setup_project(os.path.join(root, 'sel'), sel_project())
+    NM_BLD = setup_project(os.path.join(root, 'nm'), names_project())
     if ck.args.replay:
         return replay(ck)
 
@@ -1014,6 +1206,49 @@ def main():
         states += st['cases'] + ncases
         transitions += st['cases'] + ncases
 
+    # ---- selection by name ----
+    if ck.want('names'):
+        alphabet = name_args()
+        maxlen = ck.q(2, 3)
+        seqs = [c for k in range(1, maxlen + 1) for c in itertools.product(alphabet, repeat=k)]
+        chunks = [seqs[i:i + 256] for i in range(0, len(seqs), 256)]
+        st = collections.Counter()
+        distinct = set()
+        pending = []
+        for res in pmap(name_chunk, chunks):
+            for k in ('cases', 'cells', 'unspec', 'dup_named', 'multi', 'redundant'):
+                st[k] += res[k]
+            distinct |= set(map(tuple, res['distinct']))
+            pending += res['viol'][:4]
+        rcases = name_real_cases(thorough)
+        rst = collections.Counter()
+        first = None
+        for res in pmap(name_real, list(enumerate(rcases)), jobs=min(NCPU, 8)):
+            rst['runs'] += 1
+            rst['aborted_runs'] += res['aborted']
+            rst['selected_tests'] += res.get('selected', 0)
+            rst['runs_with_failing_test'] += res.get('fails', 0)
+            pending += res['viol'][:4]
+            first = first or res.get('sample')
+        report(ck, pending)
+        if first:
+            ck.sample({'names_real': first})
+        ck.part('names', arguments=len(alphabet), max_arguments=maxlen, selections=st['cases'], cells_compared=st['cells'],
+                skipped_unspecified=st['unspec'], distinct_selections=len(distinct), selecting_same_named_tests=st['dup_named'],
+                test_named_by_several_arguments=st['multi'], with_redundant_argument=st['redundant'],
+                real_runs=rst['runs'], real_runs_selected_tests=rst['selected_tests'],
+                real_runs_with_failing_test=rst['runs_with_failing_test'], timing_dependent={'aborted_runs': rst['aborted_runs']})
+        ck.add('skipped_unspecified', st['unspec'])
+        ck.require(st['dup_named'] > 0 and st['multi'] > 0 and st['redundant'] > 0 and len(distinct) >= 15,
+                   'name selection space degenerate: %r' % dict(st))
+        ck.require(rst['runs'] - rst['aborted_runs'] > 0 and rst['runs_with_failing_test'] > 0 and rst['runs_with_failing_test'] < rst['runs'],
+                   'real runs of name selections exercised nothing: %r' % dict(rst))
+        states += st['cases']
+        transitions += st['cases']
+        names_real_runs = rst['runs']
+    else:
+        names_real_runs = 0
+
     # ---- Part 1 ----
     if ck.want('p1'):
         confs = configurations(thorough)
@@ -1068,6 +1303,7 @@ def main():
             ck.require(tot['cut_maxfail'] > 0, 'no execution cut short by --maxfail')
             ck.require(tot['cut_repeat'] > 0, 'no execution cut short by a failure under --repeat')
             ck.require(tot['jobs_saturated'] > 0, 'job limit never reached')
+            ck.require(tot['rust_runs_nonzero_status'] > 0, 'no run of a protocol-rust test that ended with a non-zero status')
             ck.require(tot['exec_with_deviation'] > 0, 'no non-default schedule')
             ck.require(len(classes) >= 20, 'too few classification classes observed: %d' % len(classes))
 
@@ -1117,7 +1353,7 @@ def main():
     ck.assume('stdout is not a tty: ConsoleLogger starts no periodic progress timer, so the only timers are test limits and kill grace periods')
     ck.assume('Part 2 compares intervals reported by the test programs (sub-intervals of the real ones) and durations reported by the harness; '
               'its coverage counters (parts.part2.timing_dependent) depend on real scheduling, its verdicts do not')
-    ck.finish(states=states, transitions=transitions, traces_validated_against_impl=traces, part2_real_runs=part2_runs,
+    ck.finish(states=states, transitions=transitions, traces_validated_against_impl=traces, part2_real_runs=part2_runs + names_real_runs,
               distinct_result_classes=len(classes),
               rule='states = distinct (configuration, schedule prefix) points of the exploration tree (+ selection cases); transitions = environment '
                    'events (process exit / timer expiry) delivered to the real harness (+ selection calls); traces = complete schedules executed on '
@@ -1158,6 +1394,17 @@ def replay(ck):
         bad = bool(o['violations'])
     elif d.get('select') == 'suite' or 'include' in d:
         res = sel_chunk([(tuple(d['include']), tuple(d['exclude']))])
+        for k, w, _ in res['viol']:
+            print('EXPECTED vs OBSERVED [%s]: %s' % (k, w))
+        bad = bool(res['viol'])
+    elif d.get('select') == 'name':
+        res = name_chunk([tuple(d['args'])])
+        for k, w, _ in res['viol']:
+            print('EXPECTED vs OBSERVED [%s]: %s' % (k, w))
+        bad = bool(res['viol'])
+    elif 'name_real' in d:
+        res = name_real((0, tuple(d['name_real'])))
+        print('observed:', res.get('sample'))
         for k, w, _ in res['viol']:
             print('EXPECTED vs OBSERVED [%s]: %s' % (k, w))
         bad = bool(res['viol'])
